@@ -9,7 +9,7 @@ WT=${WT:-/tmp/wt/verify}
 export CARGO_NET_OFFLINE=true CARGO_TARGET_DIR=${WT:-/tmp/wt/verify}-target
 LOG=$DIR/verify.log
 : > $LOG
-HEAD=$(git -C /repo rev-parse HEAD)
+HEAD=${BASE:-$(git -C /repo rev-parse HEAD)}
 if [ ! -d $WT ]; then git -C /repo worktree add -q --detach $WT $HEAD >>$LOG 2>&1; fi
 cd $WT && git checkout -q --detach $HEAD && git checkout -q -- . && git clean -fdq
 mkdir -p $(dirname $DEST) && cp $DEMO $DEST
